@@ -21,7 +21,56 @@ def _m_overread(dev):
     return paths and all(p == "act.overread" for p in paths)
 
 
-MATCHERS = {"C15-deserialize-truncated-overread": _m_overread}
+MATCHERS = {"C15-deserialize-truncated-overread": _m_overread,
+            "C15-matrix-moved-from-unusable": lambda n: n.get("kind") == "note" and n.get("tag") == "moved_from_unusable"}
+
+
+def matrix_lifecycle_part(ev, fnd, unknown, tier):
+    """MatrixLifecycle.tla: copies / moves / assignments / swaps / destructions of matrices interleaved with
+    insert_boundary / remove_last / vine_swap, with the provenance of every object (copy with a live source, copy
+    whose source is gone, moved) part of the state so that 'a copy whose source was destroyed is mutated' is a
+    transition of the graph.  Replayed under ASan+UBSan on 8-12 Matrix option sets per column type and field."""
+    cols = pm_common.pick_cols(tier) if tier == "thorough" else [0, 8, [1, 2, 3, 4, 5, 6, 7][vf.seed() % 7]]
+    jobs = [dict(name="lcm_c%d_z%d_san" % (c, z2), src="lcm_replay.cpp", defines=["VF_COL=%d" % c, "VF_Z2=%d" % z2],
+                 sanitize="address,undefined") for c in cols for z2 in (0, 1)]
+    bins = vf.build_many(jobs, par=min(len(jobs), 12))
+    total = 0
+    for part, cfg, z2, p in (("lifecycle_matrix_z3", "MC_MatrixLifecycle_z3.cfg", 0, 3),
+                             ("lifecycle_matrix_z2_vine", "MC_MatrixLifecycle_z2v.cfg", 1, 2)):
+        r = vf.tlc("MC_MatrixLifecycle", cfg, workers=1, timeout=1100)
+        if r.violation:
+            unknown.append({"kind": "model", "tlc": r.violation})
+            continue
+        init = {"objs": [{"live": False, "f": [], "kind": "none", "src": 0} for _ in range(2)]}
+        g = vf.StateGraph.from_tlc(r.outfile, init_id=init)
+        ev.add_tlc(part, r, {"graph_states": len(g.obs), "graph_edges": g.nedges, "cfg": cfg})
+        os.remove(r.outfile)
+        work = os.path.join(vf.BUILD, "work", "%s_%s_%d" % (PROP, part, os.getpid()))
+        env = dict(ASAN_ENV)
+        env.update({"VF_SLOTS": "2", "VF_P": str(p)})
+        mine = [b for b, j in zip(bins, jobs) if ("VF_Z2=%d" % z2) in j["defines"]]
+        del vf.last_notes[:]
+        summ, devs, crashes, nb = vf.replay(g, mine, work, env=env, shards=5, rnd=random.Random(vf.seed()), walks=200, walk_len=24,
+                                            timeout=3000)
+        beh = sum(s["behaviours"] for s in summ.values())
+        ev.parts[part]["replay"] = {"behaviours_in_cover": nb, "configs": len(summ), "behaviours": beh,
+                                    "steps": sum(s["steps"] for s in summ.values()), "sanitizers": "address,undefined",
+                                    "uses_of_moved_from_matrices_probed": len(vf.last_notes)}
+        total += beh
+        if not summ:
+            unknown.append({"part": part, "kind": "infra", "what": "no configuration reported"})
+        for n in vf.last_notes:
+            if fnd.match(PROP, n, MATCHERS) is None:
+                unknown.append({"part": part, **n})
+        for c in crashes:
+            unknown.append({"part": part, **c})
+        for d in devs:
+            if fnd.match(PROP, d, MATCHERS) is None:
+                unknown.append({"part": part, **d})
+        ex = next(((a, v) for u in range(len(g.out)) for a, v in g.out[u] if a["op"] == "copy_assign" and a["i"] != a["j"]), None)
+        if ex:
+            ev.sample({"part": part, "act": ex[0]}, 4)
+    return total
 
 
 def lifecycle_part(ev, fnd, unknown, part, cfg, slots, bins, shards, per_state=None):
@@ -133,6 +182,7 @@ def main(tier):
     total += lifecycle_part(ev, fnd, unknown, "lifecycle_tree_2slots", "MC_Lifecycle_tree2.cfg", 2, bins, 6,
                             per_state=3 if tier == "quick" else None)
     total += lifecycle_part(ev, fnd, unknown, "lifecycle_tree_3slots", "MC_Lifecycle_tree3.cfg", 3, bins, 2)
+    total += matrix_lifecycle_part(ev, fnd, unknown, tier)
     total += sanitized_other_drivers(ev, unknown, tier)
     total += threads_part(ev, unknown, tier)
     ev.cov["evaluations"] = total
@@ -142,7 +192,10 @@ def main(tier):
                       "move-construct / move-assign / swap / destroy / serialize / deserialize with byte-length perturbations / text round "
                       "trip over 2 slots x all filtered complexes on 2 vertices and 3 slots x a 1-vertex payload; every transition and random "
                       "walks replayed on 8 Simplex_tree option sets under ASan+UBSan, ALL live slots re-projected after every step (aliasing "
-                      "shows as a change of a slot the action did not name); the replay drivers of the simplex-tree and matrix models rebuilt "
+                      "shows as a change of a slot the action did not name); TLC BFS of MatrixLifecycle.tla (2 slots x cell complexes with <= 4 "
+                      "cells on 2 vertices over Z3 / Z2 with vine swaps x provenance of each object: new / copy of a live source / copy whose "
+                      "source is gone / moved), every transition and random walks replayed on 8-12 Matrix option sets per column type under "
+                      "ASan+UBSan with the matrix identities re-checked in every live slot after every step; the replay drivers of the simplex-tree and matrix models rebuilt "
                       "with ASan+UBSan; thread variant under TSan")
     ev.assumptions = ["memory safety and UB are decided by the sanitizers on the executions the specifications generate, not by TLA+",
                       "the filtration cache is refreshed by the driver before operator<< / persistence, as the documentation requires",
